@@ -340,7 +340,6 @@ static void run_one(const LProg& p, const CaseInfo& ci, const std::vector<std::v
       // outputs
       size_t oi = 0;
       for (size_t j = 0; j < I.ops.size(); j++) { const Opd& o = I.ops[j]; if (o.role == 'W' || o.role == 'X') write_phys(m, p, p.kinds[size_t(o.val)], ids[j], st.outs[oi++], o.width); }
-      { Step s2; Term m2; std::vector<Term> cur(p.kinds.size()); (void)cur; }
       if (I.mem_write) { std::vector<Term> fin = st.reads; fin.push_back(kMemPtr); if (I.mem_read) fin.push_back(memtok); fin.push_back(memtok); memtok = hterm(I.ident(), 0xFF, fin); }
       if (I.kind == KIND_BR) {
         int take = bi < script.size() ? script[bi] : 0; bi++;
@@ -366,4 +365,268 @@ static void run_one(const LProg& p, const CaseInfo& ci, const std::vector<std::v
     }
   }
   if (unsat && !g_reported) c.n("unsat_compiled_correctly")++;
+}
+
+// =========================================================================================================
+// alphabet of list forms
+// =========================================================================================================
+struct Form { const char* name; const char* cls; int arch; uint32_t inst; int n; int arr; int lane; int width; bool table; bool load; bool store; };
+static const Form kForms[] = {
+  // AArch64 loads (written lists)
+  {"ld1x1.4s", "ld1", 2, a64::Inst::kIdLd1_v, 1, 0, -1, 16, false, true, false},
+  {"ld1x2.4s", "ld1", 2, a64::Inst::kIdLd1_v, 2, 0, -1, 16, false, true, false},
+  {"ld1x3.4s", "ld1", 2, a64::Inst::kIdLd1_v, 3, 0, -1, 16, false, true, false},
+  {"ld1x4.4s", "ld1", 2, a64::Inst::kIdLd1_v, 4, 0, -1, 16, false, true, false},
+  {"ld1x2.8b", "ld1", 2, a64::Inst::kIdLd1_v, 2, 4, -1, 8, false, true, false},
+  {"ld2.4s", "ld2", 2, a64::Inst::kIdLd2_v, 2, 0, -1, 16, false, true, false},
+  {"ld2.2s", "ld2", 2, a64::Inst::kIdLd2_v, 2, 3, -1, 8, false, true, false},
+  {"ld2.16b", "ld2", 2, a64::Inst::kIdLd2_v, 2, 1, -1, 16, false, true, false},
+  {"ld3.4s", "ld3", 2, a64::Inst::kIdLd3_v, 3, 0, -1, 16, false, true, false},
+  {"ld3.8h", "ld3", 2, a64::Inst::kIdLd3_v, 3, 5, -1, 16, false, true, false},
+  {"ld4.4s", "ld4", 2, a64::Inst::kIdLd4_v, 4, 0, -1, 16, false, true, false},
+  {"ld4.2d", "ld4", 2, a64::Inst::kIdLd4_v, 4, 2, -1, 16, false, true, false},
+  {"ld2r.4s", "ld2r", 2, a64::Inst::kIdLd2r_v, 2, 0, -1, 16, false, true, false},
+  {"ld4r.4s", "ld4r", 2, a64::Inst::kIdLd4r_v, 4, 0, -1, 16, false, true, false},
+  {"ld2lane.s", "ld2lane", 2, a64::Inst::kIdLd2_v, 2, 0, 1, 16, false, true, false},
+  {"ld3lane.s", "ld3lane", 2, a64::Inst::kIdLd3_v, 3, 0, 2, 16, false, true, false},
+  // AArch64 stores (read lists)
+  {"st1x1.4s", "st1", 2, a64::Inst::kIdSt1_v, 1, 0, -1, 16, false, false, true},
+  {"st1x2.4s", "st1", 2, a64::Inst::kIdSt1_v, 2, 0, -1, 16, false, false, true},
+  {"st1x3.4s", "st1", 2, a64::Inst::kIdSt1_v, 3, 0, -1, 16, false, false, true},
+  {"st1x4.4s", "st1", 2, a64::Inst::kIdSt1_v, 4, 0, -1, 16, false, false, true},
+  {"st2.4s", "st2", 2, a64::Inst::kIdSt2_v, 2, 0, -1, 16, false, false, true},
+  {"st2.2s", "st2", 2, a64::Inst::kIdSt2_v, 2, 3, -1, 8, false, false, true},
+  {"st3.4s", "st3", 2, a64::Inst::kIdSt3_v, 3, 0, -1, 16, false, false, true},
+  {"st3.16b", "st3", 2, a64::Inst::kIdSt3_v, 3, 1, -1, 16, false, false, true},
+  {"st4.4s", "st4", 2, a64::Inst::kIdSt4_v, 4, 0, -1, 16, false, false, true},
+  {"st4.2d", "st4", 2, a64::Inst::kIdSt4_v, 4, 2, -1, 16, false, false, true},
+  {"st2lane.s", "st2lane", 2, a64::Inst::kIdSt2_v, 2, 0, 1, 16, false, false, true},
+  // AArch64 table lookups (read lists + destination + index)
+  {"tbl1", "tbl", 2, a64::Inst::kIdTbl_v, 1, 1, -1, 16, true, false, false},
+  {"tbl2", "tbl", 2, a64::Inst::kIdTbl_v, 2, 1, -1, 16, true, false, false},
+  {"tbl3", "tbl", 2, a64::Inst::kIdTbl_v, 3, 1, -1, 16, true, false, false},
+  {"tbl4", "tbl", 2, a64::Inst::kIdTbl_v, 4, 1, -1, 16, true, false, false},
+  {"tbx1", "tbx", 2, a64::Inst::kIdTbx_v, 1, 1, -1, 16, true, false, false},
+  {"tbx2", "tbx", 2, a64::Inst::kIdTbx_v, 2, 1, -1, 16, true, false, false},
+  {"tbx3", "tbx", 2, a64::Inst::kIdTbx_v, 3, 1, -1, 16, true, false, false},
+  {"tbx4", "tbx", 2, a64::Inst::kIdTbx_v, 4, 1, -1, 16, true, false, false},
+  // x86-64 mask pairs
+  {"vp2intersectd", "vp2intersectd", 0, x86::Inst::kIdVp2intersectd, 2, 0, -1, 8, true, false, false},
+  {"vp2intersectq", "vp2intersectq", 0, x86::Inst::kIdVp2intersectq, 2, 0, -1, 8, true, false, false},
+};
+static const int kFormCount = int(sizeof(kForms) / sizeof(kForms[0]));
+static int form_by_name(const std::string& n) { for (int i = 0; i < kFormCount; i++) if (n == kForms[i].name) return i; return -1; }
+
+struct Spec { int form; std::vector<int> sel; int d = -1, m = -1; };     // sel: indexes of the list members; d, m: destination / index (tbl, tbx) or the two vector sources (vp2intersect)
+struct Desc { int arch = 2, K = 0, nv = 5, shape = 0; std::vector<Spec> insts; };
+static const char* const kShapes[] = {"straight", "diamond", "loop"};
+
+static std::string desc_str(const Desc& d) {
+  std::string s = std::string("arch=") + (d.arch == 2 ? "a64" : "x64") + " K=" + std::to_string(d.K) + " nv=" + std::to_string(d.nv) + " shape=" + kShapes[d.shape] + " insts=";
+  for (size_t i = 0; i < d.insts.size(); i++) {
+    const Spec& sp = d.insts[i];
+    s += (i ? "|" : "") + std::string(kForms[sp.form].name) + ":";
+    for (size_t j = 0; j < sp.sel.size(); j++) s += (j ? "," : "") + std::to_string(sp.sel[j]);
+    if (kForms[sp.form].table) s += ":" + std::to_string(sp.d) + ":" + std::to_string(sp.m);
+  }
+  return s;
+}
+static bool parse_desc(const std::string& text, Desc& d) {
+  for (auto& line : vh::split(text, '\n')) {
+    if (line.rfind("arch=", 0) != 0) continue;
+    char ar[16], sh[32], in[2048];
+    if (sscanf(line.c_str(), "arch=%15s K=%d nv=%d shape=%31s insts=%2047s", ar, &d.K, &d.nv, sh, in) != 5) return false;
+    d.arch = !strcmp(ar, "a64") ? 2 : 0;
+    d.shape = -1; for (int i = 0; i < 3; i++) if (!strcmp(sh, kShapes[i])) d.shape = i;
+    if (d.shape < 0) return false;
+    for (auto& is : vh::split(in, '|')) {
+      auto parts = vh::split(is, ':'); if (parts.size() < 2) return false;
+      Spec sp; sp.form = form_by_name(parts[0]); if (sp.form < 0) return false;
+      for (auto& x : vh::split(parts[1], ',')) sp.sel.push_back(atoi(x.c_str()));
+      if (kForms[sp.form].table) { if (parts.size() != 4) return false; sp.d = atoi(parts[2].c_str()); sp.m = atoi(parts[3].c_str()); }
+      d.insts.push_back(sp);
+    }
+    return true;
+  }
+  return false;
+}
+
+// ---- program construction ----
+static LI plain(const char* form, uint32_t inst, std::vector<Opd> ops, bool has_mem, int64_t off, bool rd, bool wr, int arr = 9) {
+  LI i; i.form = form; i.inst_id = inst; i.ops = ops; i.has_mem = has_mem; i.off = off; i.mem_read = rd; i.mem_write = wr; i.arr = arr; return i;
+}
+
+static bool build(const Desc& d, LProg& p, size_t& body_from, size_t& body_to) {
+  p.arch = d.arch; p.K = d.K;
+  const bool a64m = d.arch == 2;
+  p.newval('g', "mem"); p.newval('g', "sel");
+  std::vector<int> vv, kv;
+  if (a64m) for (int i = 0; i < d.nv; i++) vv.push_back(p.newval('v', "v" + std::to_string(i)));
+  else { for (int i = 0; i < 2; i++) vv.push_back(p.newval('v', "z" + std::to_string(i))); for (int i = 0; i < d.nv; i++) kv.push_back(p.newval('k', "k" + std::to_string(i))); }
+  const int VW = a64m ? 16 : 64;
+  // init: every value is loaded from the buffer (distinct terms) and stays live until the final stores
+  for (size_t i = 0; i < vv.size(); i++) p.code.push_back(plain(a64m ? "ldr" : "vmovdqu64.ld", a64m ? uint32_t(a64::Inst::kIdLdr_v) : uint32_t(x86::Inst::kIdVmovdqu64), {Opd{vv[i], 'W', VW}}, true, int64_t(VW * i), true, false));
+  for (size_t i = 0; i < kv.size(); i++) p.code.push_back(plain("kmovq.ld", x86::Inst::kIdKmovq, {Opd{kv[i], 'W', 8}}, true, 256 + 8 * int64_t(i), true, false));
+  body_from = p.code.size();
+  auto mk = [&](const Spec& sp, LI& I) -> bool {
+    const Form& f = kForms[sp.form];
+    if (f.arch != d.arch || int(sp.sel.size()) != f.n) return false;
+    const std::vector<int>& pool = a64m ? vv : kv;
+    I = LI(); I.form = f.name; I.inst_id = f.inst; I.arr = f.arr; I.lane = f.lane; I.is_list = true;
+    char lrole = role_of(f.cls, f.table && a64m ? 1 : 0);
+    if (a64m && f.table) {
+      if (sp.d < 0 || sp.d >= int(vv.size()) || sp.m < 0 || sp.m >= int(vv.size())) return false;
+      I.ops.push_back(Opd{vv[size_t(sp.d)], role_of(f.cls, 0), 16});
+    }
+    I.list_first = int(I.ops.size()); I.list_len = f.n;
+    for (int x : sp.sel) { if (x < 0 || x >= int(pool.size())) return false; I.ops.push_back(Opd{pool[size_t(x)], lrole, f.width}); }
+    if (a64m && f.table) I.ops.push_back(Opd{vv[size_t(sp.m)], role_of(f.cls, 2), 16});
+    if (!a64m) {   // vp2intersect k, k+1, zmm, zmm : the two masks share the role of the first operand group, then the sources
+      if (sp.d < 0 || sp.d >= 2 || sp.m < 0 || sp.m >= 2) return false;
+      I.ops[1].role = role_of(f.cls, 1);
+      I.ops.push_back(Opd{vv[size_t(sp.d)], role_of(f.cls, 2), 64}); I.ops.push_back(Opd{vv[size_t(sp.m)], role_of(f.cls, 3), 64});
+    }
+    if (f.load || f.store) { I.has_mem = true; I.off = 512; I.mem_read = f.load; I.mem_write = f.store; }
+    // one virtual register at two list positions cannot be satisfied
+    for (size_t x = 0; x < sp.sel.size(); x++) for (size_t y = x + 1; y < sp.sel.size(); y++) if (sp.sel[x] == sp.sel[y]) { if (lrole == 'R') p.unsat_r = true; else p.unsat_w = true; }
+    return true;
+  };
+  std::vector<LI> li(d.insts.size());
+  for (size_t i = 0; i < d.insts.size(); i++) if (!mk(d.insts[i], li[i])) return false;
+  auto br = [&](bool nz, int lbl) { LI b; b.kind = KIND_BR; b.lbl = lbl; b.br_nz = nz; b.ops.push_back(Opd{1, 'R', 8});
+    if (a64m) { b.form = nz ? "cbnz" : "cbz"; b.inst_id = nz ? a64::Inst::kIdCbnz : a64::Inst::kIdCbz; p.code.push_back(b); }
+    else { LI t = plain("test", x86::Inst::kIdTest, {Opd{1, 'R', 8}, Opd{1, 'R', 8}}, false, 0, false, false); p.code.push_back(t); b.ops.clear(); b.form = nz ? "jnz" : "jz"; b.inst_id = nz ? x86::Inst::kIdJnz : x86::Inst::kIdJz; p.code.push_back(b); } };
+  auto lab = [&](int l) { LI x; x.kind = KIND_LABEL; x.lbl = l; p.code.push_back(x); };
+  auto jmp = [&](int l) { LI x; x.kind = KIND_JMP; x.lbl = l; x.form = "b"; p.code.push_back(x); };
+  size_t n = li.size();
+  if (d.shape == 0) { for (auto& x : li) p.code.push_back(x); }
+  else if (d.shape == 1) {
+    int le = p.nlabels++, lj = p.nlabels++;
+    br(false, le); p.code.push_back(li[0]); jmp(lj); lab(le); if (n >= 2) p.code.push_back(li[1]); lab(lj); if (n >= 3) p.code.push_back(li[2]);
+  } else {
+    int lh = p.nlabels++;
+    lab(lh); p.code.push_back(li[0]); if (n >= 2) p.code.push_back(li[1]); br(true, lh); if (n >= 3) p.code.push_back(li[2]);
+  }
+  body_to = p.code.size();
+  // every value is consumed (stored) at the end
+  for (size_t i = 0; i < vv.size(); i++) p.code.push_back(plain(a64m ? "str" : "vmovdqu64.st", a64m ? uint32_t(a64::Inst::kIdStr_v) : uint32_t(x86::Inst::kIdVmovdqu64), {Opd{vv[i], 'R', VW}}, true, 1024 + int64_t(VW * i), false, true));
+  for (size_t i = 0; i < kv.size(); i++) p.code.push_back(plain("kmovq.st", x86::Inst::kIdKmovq, {Opd{kv[i], 'R', 8}}, true, 2048 + 8 * int64_t(i), false, true));
+  return true;
+}
+
+static std::vector<std::vector<int>> scripts_for(int shape, bool thorough) {
+  if (shape == 0) return {{}};
+  if (shape == 1) return {{0}, {1}};
+  if (thorough) return {{0}, {1, 0}, {1, 1, 0}};
+  return {{0}, {1, 0}};
+}
+
+static long long g_idx = 0; static bool g_stop = false, g_dry = false;
+static void run_desc(const Desc& d) {
+  vh::Ctx& c = vh::ctx();
+  if (g_stop) return;
+  if (g_dry) { g_idx++; return; }
+  if (!c.replaying() && !c.mine(g_idx++)) return;
+  if ((c.n("evaluations") & 255) == 0 && c.out_of_time()) { g_stop = true; return; }
+  LProg p; size_t bf = 0, bt = 0;
+  if (!build(d, p, bf, bt)) { fprintf(stderr, "c05_lists: cannot build %s\n", desc_str(d).c_str()); exit(2); }
+  CaseInfo ci; ci.arch = d.arch == 2 ? "a64" : "x64"; ci.shape = kShapes[d.shape];
+  ci.replay = "harness=c05_lists\n" + desc_str(d) + "\n";
+  ci.body = desc_str(d) + " :: " + prog_str(p, bf, bt);
+  if (p.unsat_w || p.unsat_r) c.n("programs_unsatisfiable")++;
+  c.n(d.arch == 2 ? "programs_a64" : "programs_x64")++;
+  c.n(("programs_" + std::to_string(d.insts.size()) + "_list_insts").c_str())++;
+  run_one(p, ci, scripts_for(d.shape, c.thorough()));
+  c.sample(ci.body, 10);
+}
+
+// all tuples of length L over [0, M)
+static void tuples(int M, int L, std::vector<std::vector<int>>& out) {
+  std::vector<int> t(size_t(L), 0);
+  for (;;) { out.push_back(t); int i = L - 1; while (i >= 0 && ++t[size_t(i)] == M) { t[size_t(i)] = 0; i--; } if (i < 0) break; }
+}
+// the selection patterns used when several list instructions are combined
+static std::vector<std::vector<int>> patterns(int L, int M, bool more) {
+  std::vector<std::vector<int>> r; std::vector<int> id, rev, sh, rot, sw;
+  for (int i = 0; i < L; i++) { id.push_back(i % M); rev.push_back((L - 1 - i) % M); sh.push_back((i + 1) % M); rot.push_back((i + 1) % L); sw.push_back(i); }
+  if (L >= 2) std::swap(sw[0], sw[1]);
+  r.push_back(id); r.push_back(rev); r.push_back(sh); if (L >= 2) { r.push_back(rot); r.push_back(sw); }
+  if (more) { std::vector<int> hi; for (int i = 0; i < L; i++) hi.push_back((M - L + i + M) % M); r.push_back(hi); if (L >= 2) { std::vector<int> dup = id; dup[size_t(L - 1)] = dup[0]; r.push_back(dup); } }
+  std::vector<std::vector<int>> u; for (auto& x : r) { bool s = false; for (auto& y : u) if (x == y) s = true; if (!s) u.push_back(x); }
+  return u;
+}
+
+int main(int argc, char** argv) {
+  vh::parse_args(argc, argv);
+  vh::Ctx& c = vh::ctx();
+  for (auto& kv : vh::split(c.opt("roles"), ';')) { size_t eq = kv.find('='); if (eq != std::string::npos) g_roles[kv.substr(0, eq)] = kv.substr(eq + 1); }
+  if (g_roles.empty()) { fprintf(stderr, "c05_lists: --roles \"<class>=<R|W|X>,...;...\" (from the ISA database, see checks/c05.py) is required\n"); return 2; }
+  if (c.replaying()) {
+    Desc d; if (!parse_desc(c.replay_text, d)) { fprintf(stderr, "c05_lists: cannot parse replay file\n"); return 2; }
+    g_verbose = c.opt("quiet") != "1";
+    run_desc(d);
+    return vh::finish();
+  }
+  g_dry = c.opt("dry") == "1";
+  const bool T = c.thorough();
+  struct Cfg { int K, nv; };
+  // ---------------- AArch64 ----------------
+  std::vector<Cfg> acfg = {{0, 6}, {6, 5}, {6, 8}};
+  if (T) { acfg.push_back({8, 7}); acfg.push_back({5, 5}); acfg.push_back({0, 34}); }
+  std::vector<int> aforms, xforms; for (int i = 0; i < kFormCount; i++) (kForms[i].arch == 2 ? aforms : xforms).push_back(i);
+  // (A) one list instruction, EVERY tuple of list members over the first 5 values (incl. the same register twice), straight line;
+  //     tbl/tbx: destination in {first member, last value} x index in {last member, last value}
+  for (const Cfg& cf : acfg) for (int f : aforms) {
+    int M = std::min(cf.nv, 5); std::vector<std::vector<int>> ts; tuples(M, kForms[f].n, ts);
+    for (auto& t : ts) {
+      int nd = kForms[f].table ? 2 : 1, nm = nd;
+      for (int di = 0; di < nd; di++) for (int mi = 0; mi < nm; mi++) {
+        Desc d; d.arch = 2; d.K = cf.K; d.nv = cf.nv; d.shape = 0;
+        Spec sp; sp.form = f; sp.sel = t; if (kForms[f].table) { sp.d = di ? cf.nv - 1 : t[0]; sp.m = mi ? cf.nv - 1 : t.back(); }
+        d.insts = {sp}; run_desc(d);
+      }
+    }
+  }
+  // (B) one list instruction inside a diamond arm / a loop body, selection patterns
+  for (const Cfg& cf : acfg) for (int f : aforms) for (int sh = 1; sh <= 2; sh++) for (auto& t : patterns(kForms[f].n, std::min(cf.nv, 5), true)) {
+    Desc d; d.arch = 2; d.K = cf.K; d.nv = cf.nv; d.shape = sh;
+    Spec sp; sp.form = f; sp.sel = t; if (kForms[f].table) { sp.d = t[0]; sp.m = cf.nv - 1; }
+    d.insts = {sp}; run_desc(d);
+  }
+  // (C) two (thorough: also three) list instructions: overlapping / conflicting lists across instructions, all shapes
+  std::vector<int> f2;
+  for (const char* nm : {"ld2.4s", "ld3.4s", "ld4.4s", "st2.4s", "st3.4s", "st4.4s", "tbl3", "tbx2", "ld2lane.s"}) f2.push_back(form_by_name(nm));
+  if (T) for (const char* nm : {"ld1x3.4s", "st1x4.4s", "tbl4", "tbx3", "ld2r.4s", "st2.2s", "ld2.2s"}) f2.push_back(form_by_name(nm));
+  for (const Cfg& cf : acfg) {
+    if (cf.nv > 8) continue;
+    int M = std::min(cf.nv, 5);
+    std::vector<Spec> specs;
+    for (int f : f2) for (auto& t : patterns(kForms[f].n, M, T)) { Spec sp; sp.form = f; sp.sel = t; if (kForms[f].table) { sp.d = t[0]; sp.m = cf.nv - 1; } specs.push_back(sp); }
+    for (int sh = 0; sh < 3; sh++) for (auto& a : specs) for (auto& b : specs) { Desc d; d.arch = 2; d.K = cf.K; d.nv = cf.nv; d.shape = sh; d.insts = {a, b}; run_desc(d); }
+    if (T && cf.K == 6 && cf.nv == 5) {
+      std::vector<Spec> s3; for (auto& s : specs) { const char* nm = kForms[s.form].name; if (!strcmp(nm, "ld2.4s") || !strcmp(nm, "st3.4s") || !strcmp(nm, "ld4.4s") || !strcmp(nm, "tbl3")) s3.push_back(s); }
+      for (int sh = 0; sh < 3; sh++) for (auto& a : s3) for (auto& b : s3) for (auto& e : s3) { Desc d; d.arch = 2; d.K = cf.K; d.nv = cf.nv; d.shape = sh; d.insts = {a, b, e}; run_desc(d); }
+    }
+  }
+  // ---------------- x86-64: vp2intersectd/q mask pairs ----------------
+  std::vector<Cfg> xcfg = {{0, 3}, {0, 8}, {4, 3}, {4, 6}};
+  for (const Cfg& cf : xcfg) for (int f : xforms) {
+    int M = std::min(cf.nv, 4); std::vector<std::vector<int>> ts; tuples(M, 2, ts);
+    for (int sh = 0; sh < 3; sh++) for (auto& t : ts) for (int src = 0; src < 2; src++) { Desc d; d.arch = 0; d.K = cf.K; d.nv = cf.nv; d.shape = sh; Spec sp; sp.form = f; sp.sel = t; sp.d = 0; sp.m = src ? 0 : 1; d.insts = {sp}; run_desc(d); }
+    // two / three pair instructions: overlapping pairs (a mask that is the first member of one pair and the second of another)
+    std::vector<std::vector<int>> ps; for (auto& t : ts) if (t[0] != t[1] && t[0] < 3 && t[1] < 3) ps.push_back(t);
+    for (int sh = 0; sh < 3; sh++) for (auto& a : ps) for (auto& b : ps) {
+      Desc d; d.arch = 0; d.K = cf.K; d.nv = cf.nv; d.shape = sh; Spec s1, s2; s1.form = s2.form = f; s1.sel = a; s2.sel = b; s1.d = s2.d = 0; s1.m = s2.m = 1; d.insts = {s1, s2}; run_desc(d);
+      if (T) for (auto& e : ps) { Desc d3 = d; Spec s3 = s1; s3.sel = e; d3.insts.push_back(s3); run_desc(d3); }
+    }
+  }
+  if (g_dry) { printf("programs in this tier: %lld\n", g_idx); return 0; }
+  c.n("states") = c.n("evaluations");
+  c.n("transitions") = c.n("traces");
+  c.strs["lists_bound"] = T ? "lists leg: AArch64 vector file {full, 5, 6, 8} x values {5..8, 34}; one list instruction: every member tuple over the first 5 values x all forms; two list instructions: 16 forms x 7 patterns squared x 3 shapes; three: 4 forms; x86-64 mask file {full, 4} x masks {3,6,8}, 1..3 vp2intersect"
+                            : "lists leg: AArch64 vector file {full, 6} x values {5,6,8}; one list instruction: every member tuple over the first 5 values x all forms (straight) + patterns in diamond/loop; two list instructions: 9 forms x 5 patterns squared x 3 shapes; x86-64 mask file {full, 4} x masks {3,6,8}, 1..2 vp2intersect";
+  c.strs["lists_rule"] = "register-list programs = arch{AArch64, x86-64} x register file x number of values x shape{straight, diamond, loop} x 1..3 list instructions (ld1..ld4, ld2r/ld4r, lane forms, st1..st4, tbl/tbx 1..4, vp2intersectd/q) x member tuples "
+                         "(incl. one register twice, reversed/rotated/overlapping lists, a member that is also destination or index); oracle = uninterpreted-term simulation of the allocated node list against the IR (roles from the ISA database): "
+                         "lists consecutive, every original instruction reads the reference terms, final memory equal, callee-saved registers preserved, unsatisfiable lists reported as errors";
+  return vh::finish();
 }
